@@ -2,73 +2,51 @@
    whatever tf.to_model (the oracle) raises *)
 From TT Require Import Base.Prelude Model.Outcome Model.ReaderGuards Proofs.C18.Srt.
 
-(* what DataFile.__init__ establishes when no trigger fires, and what every block preserves *)
-Definition stl_inv (v : stl_vars) (bs : list (list Z)) : Prop :=
-  t_count v <> 0 /\
-  (exists rows, t_rows v = Some rows /\ rows <> 0) /\
-  (t_have_p v = true \/
-   (t_last_sn v = None /\
-    match first_effective_cs (t_fps v) (t_offset v) bs with Some cs => cs_starts cs = true | None => True end)).
+(* what DataFile.__init__ establishes when the trigger does not fire, and what every block preserves *)
+Definition stl_inv (v : stl_vars) : Prop := exists rows, t_rows v = Some rows /\ rows <> 0.
 
-Lemma with_block_done_ok v last have_p oracle :
-  t_count v <> 0 ->
-  exists v', with_block_done v last have_p oracle = inl v' /\
-             t_count v' = t_count v /\ t_rows v' = t_rows v /\ t_fps v' = t_fps v /\ t_offset v' = t_offset v /\
-             t_last_sn v' = last /\ t_have_p v' = have_p /\ t_oracle v' = oracle.
-Proof.
-  intro C. unfold with_block_done. destruct (t_count v =? 0) eqn:E; [apply Z.eqb_eq in E; contradiction|].
-  eexists. split; [reflexivity|]. simpl. repeat split; reflexivity.
-Qed.
-
-Lemma stl_block_step v b rest :
-  stl_inv v (b :: rest) ->
+Lemma stl_block_step v b :
+  stl_inv v ->
   match stl_block v b with
-  | inl v' => stl_inv v' rest /\ (forall x, In x (t_oracle v') -> In x (t_oracle v))
+  | inl v' => stl_inv v' /\ (forall x, In x (t_oracle v') -> In x (t_oracle v))
   | inr (Internal k) => In (SubInternal k) (t_oracle v)
   | inr _ => True
   end.
 Proof.
-  intros [C [[rows [R Rz]] P]]. unfold stl_block.
+  intros [rows [R Rz]]. unfold stl_block.
   destruct (Z.of_nat (length b) =? 128); cbn [negb]; [|exact I].
   destruct (block_effective (t_fps v) (t_offset v) b) eqn:Eff; cbn [negb].
   - (* the block reaches the paragraph code *)
     cbv zeta.
-    set (sn := nth 1 b 0 + 256 * nth 2 b 0). set (cs := nth 4 b 0). set (vp := nth 13 b 0).
+    set (sn := nth 1 b 0 + 256 * nth 2 b 0). set (cs := nth 4 b 0). set (vp := Z.max (nth 13 b 0) 1).
     set (same := match t_last_sn v with Some l => l =? sn | None => false end).
-    assert (G : (if negb same && cs_starts cs
+    set (fresh := negb same && cs_starts cs || negb (t_have_p v)).
+    assert (G : (if fresh
                  then match t_rows v with
                       | None => Some (Internal AttributeErr)
                       | Some rows0 => if vp <? rows0 / 2 then None else if rows0 =? 0 then Some (Internal ZeroDivisionErr) else None
                       end
                  else None) = None).
-    { destruct (negb same && cs_starts cs); [|reflexivity]. rewrite R.
+    { destruct fresh; [|reflexivity]. rewrite R.
       destruct (vp <? rows / 2); [reflexivity|]. destruct (rows =? 0) eqn:Z0; [apply Z.eqb_eq in Z0; contradiction|reflexivity]. }
     rewrite G.
-    assert (H : t_have_p v || (negb same && cs_starts cs) = true).
-    { destruct P as [Hp|[Ls F]]; [rewrite Hp; reflexivity|].
-      simpl in F. rewrite Eff in F. unfold same. rewrite Ls. simpl. fold cs in F. rewrite F. apply orb_true_r. }
+    assert (H : t_have_p v || fresh = true) by (unfold fresh; destruct (t_have_p v); [reflexivity|apply orb_true_r]).
     rewrite H. cbn [negb].
     destruct (next_sub (t_oracle v)) as [r o'] eqn:N.
     destruct (outcome_of_sub r) eqn:O.
     + destruct o; try exact I. apply outcome_of_sub_internal in O. subst. eapply next_sub_internal; eauto.
-    + destruct (with_block_done_ok v (if negb same && cs_starts cs then Some sn else t_last_sn v) true o' C)
-        as [v' [E [E1 [E2 [E3 [E4 [E5 [E6 E7]]]]]]]].
-      rewrite E. split.
-      * unfold stl_inv. rewrite E1, E2, E6. repeat split; eauto.
-      * rewrite E7. eapply next_sub_incl; eauto.
+    + unfold with_block_done. split.
+      * exists rows. split; [exact R|exact Rz].
+      * cbn [t_oracle]. eapply next_sub_incl; eauto.
   - (* the block returns early *)
-    destruct (with_block_done_ok v (t_last_sn v) (t_have_p v) (t_oracle v) C) as [v' [E [E1 [E2 [E3 [E4 [E5 [E6 E7]]]]]]]].
-    rewrite E. split.
-    + unfold stl_inv. rewrite E1, E2, E3, E4, E5, E6. repeat split; eauto.
-      destruct P as [Hp|[Ls F]]; [now left|right]. split; [assumption|]. simpl in F. rewrite Eff in F. exact F.
-    + rewrite E7. auto.
+    unfold with_block_done. split; [exists rows; split; [exact R|exact Rz]|auto].
 Qed.
 
 Lemma stl_loop_internal bs : forall v k,
-  stl_inv v bs -> stl_loop v bs = Internal k -> In (SubInternal k) (t_oracle v).
+  stl_inv v -> stl_loop v bs = Internal k -> In (SubInternal k) (t_oracle v).
 Proof.
   induction bs as [|b rest IH]; intros v k J E; simpl in E; [discriminate|].
-  pose proof (stl_block_step v b rest J) as S.
+  pose proof (stl_block_step v b J) as S.
   destruct (stl_block v b) as [v'|o].
   - destruct S as [J' Inc]. apply Inc. eapply IH; eauto.
   - subst. exact S.
@@ -76,39 +54,26 @@ Qed.
 
 Lemma stl_run_internal cfg oracle file k :
   trig_zero_rows cfg (firstn 1024 file) = false ->
-  trig_zero_count (firstn 1024 file) = false -> trig_cum_first cfg file = false ->
   stl_run cfg oracle file = Internal k -> In (SubInternal k) oracle.
 Proof.
-  intros T2 T3 T4. unfold stl_run, stl_init. unfold trig_cum_first in T4.
+  intros T2. unfold stl_run, stl_init.
   set (gsi := firstn 1024 file) in *.
   destruct (stl_header cfg gsi) as [h|o] eqn:Hd.
   - intro E. change oracle with (t_oracle (stl_vars_of h oracle)). eapply stl_loop_internal; eauto.
     unfold stl_inv. simpl.
     unfold stl_header in Hd. destruct (negb (Z.of_nat (length gsi) =? 1024)); [discriminate|].
-    unfold trig_zero_rows in T2. unfold trig_zero_count in T3.
-    assert (Cnt : (match bytes_int (slice 238 5 gsi) with Some n => n | None => maxsize end) <> 0).
-    { destruct (bytes_int (slice 238 5 gsi)) as [n|]; [|unfold maxsize; lia]. apply Z.eqb_neq. exact T3. }
+    unfold trig_zero_rows in T2.
     match type of Hd with (match ?st with inl _ => _ | inr _ => _ end) = _ => destruct st as [off|o] eqn:St; [|discriminate] end.
-    assert (Fin : forall fps off0,
-              match first_effective_cs fps off0 (stl_blocks file) with Some cs => negb (cs_starts cs) | None => false end = false ->
-              match first_effective_cs fps off0 (stl_blocks file) with Some cs => cs_starts cs = true | None => True end).
-    { intros fps off0 F. destruct (first_effective_cs fps off0 (stl_blocks file)); [apply negb_false_iff in F; exact F|exact I]. }
     destruct (cfg_rows cfg) as [| |n] eqn:Rw.
-    + inversion Hd; subst; simpl in *. repeat split; [exact Cnt|exists 23; split; [reflexivity|lia]|].
-      right. split; [reflexivity|]. apply Fin. exact T4.
+    + inversion Hd; subst; simpl in *. exists 23; split; [reflexivity|lia].
     + destruct (gsi_teletext gsi); simpl in T2.
-      * inversion Hd; subst; simpl in *. repeat split; [exact Cnt|exists 23; split; [reflexivity|lia]|].
-        right. split; [reflexivity|]. apply Fin. exact T4.
+      * inversion Hd; subst; simpl in *. exists 23; split; [reflexivity|lia].
       * destruct (bytes_int (slice 253 2 gsi)) as [n|].
-        -- inversion Hd; subst; simpl in *. repeat split; [exact Cnt|exists n; split; [reflexivity|apply Z.eqb_neq; exact T2]|].
-           right. split; [reflexivity|]. apply Fin. exact T4.
-        -- inversion Hd; subst; simpl in *. repeat split; [exact Cnt|exists 23; split; [reflexivity|lia]|].
-           right. split; [reflexivity|]. apply Fin. exact T4.
+        -- inversion Hd; subst; simpl in *. exists n; split; [reflexivity|apply Z.eqb_neq; exact T2].
+        -- inversion Hd; subst; simpl in *. exists 23; split; [reflexivity|lia].
     + destruct (gsi_teletext gsi); simpl in T2.
-      * inversion Hd; subst; simpl in *. repeat split; [exact Cnt|exists 23; split; [reflexivity|lia]|].
-        right. split; [reflexivity|]. apply Fin. exact T4.
-      * inversion Hd; subst; simpl in *. repeat split; [exact Cnt|exists n; split; [reflexivity|apply Z.eqb_neq; exact T2]|].
-        right. split; [reflexivity|]. apply Fin. exact T4.
+      * inversion Hd; subst; simpl in *. exists 23; split; [reflexivity|lia].
+      * inversion Hd; subst; simpl in *. exists n; split; [reflexivity|apply Z.eqb_neq; exact T2].
   - (* DataFile.__init__ raises nothing but struct.error *)
     intro E. subst. exfalso.
     unfold stl_header in Hd. destruct (negb (Z.of_nat (length gsi) =? 1024)); [discriminate|].
@@ -119,10 +84,9 @@ Qed.
 
 Lemma stl_partial cfg oracle file :
   trig_zero_rows cfg (firstn 1024 file) = false ->
-  trig_zero_count (firstn 1024 file) = false -> trig_cum_first cfg file = false ->
   (forall r, In r oracle -> sub_is_internal r = false) ->
   is_internal (stl_run cfg oracle file) = false.
 Proof.
-  intros T2 T3 T4 H. destruct (stl_run cfg oracle file) eqn:E; try reflexivity.
+  intros T2 H. destruct (stl_run cfg oracle file) eqn:E; try reflexivity.
   apply stl_run_internal in E; auto. apply H in E. discriminate.
 Qed.
